@@ -4,7 +4,7 @@ From Coq Require Import ZArith QArith List Bool String Ascii.
 From Coq Require Import Floats.PrimFloat.
 From PAFCommon Require Import PyFloat PyNum.
 From Coq Require Import Permutation.
-From PAFC07 Require Import Gen Model Proofs1 Proofs2 Proofs3 Proofs4 Proofs5 Proofs6 Proofs7 Proofs8 Refute.
+From PAFC07 Require Import Gen Model Proofs1 Proofs2 Proofs3 Proofs4 Proofs5 Proofs6 Proofs7 Proofs8 Proofs9 Refute.
 Import ListNotations.
 Open Scope string_scope.
 Open Scope list_scope.
@@ -269,7 +269,52 @@ Theorem C07_sensitive_dot_join_refuted :
   forall ps, joined ps (fit_obj emcee dot_a None) = joined ps (fit_obj emcee dot_b None).
 Proof. exact dot_join_witness. Qed.
 
+(* ---------------- models derived by the library ---------------- *)
+(* mapper_from_prior_arguments / mapper_from_partial_prior_arguments (a grid-search cell) / prior passing / with_limits
+   all go through gaussian_prior_model_for_arguments.  derive_gen keep ord is its model; keep (the new Collection takes over
+   item_number) and ord (a new TuplePrior keeps the order of its members) are read from the source.
+   With both true: any number of derivations in a row, on any composition (positional collections and tuples at any
+   depth), give a fit with the identifier of the same composition written by hand with the new priors. *)
+Theorem C07_derived_same_identifier : forall (md5 : string -> string) (ps : float -> string) (s : node)
+      (steps : list (list (Z * node))) (n : node) (tag : option string),
+  forallb priors_only steps = true ->
+  ident md5 ps (fit_obj s (derive_all_gen true true steps n) tag) = ident md5 ps (fit_obj s (subst_all steps n) tag).
+Proof. exact derived_same_identifier. Qed.
+
+(* the code as it is (derive = derive_gen with the facts read from the source; the proof uses keep = true and holds for
+   either value of ord): for every composition whose tuples list their free members before their fixed ones *)
+Theorem C07_derived_same_identifier_partial : forall (md5 : string -> string) (ps : float -> string) (s : node)
+      (a : list (Z * node)) (n : node) (tag : option string),
+  priors_only a = true -> tuples_ok n = true ->
+  ident md5 ps (fit_obj s (derive a n) tag) = ident md5 ps (fit_obj s (subst a n) tag).
+Proof. exact derived_same_identifier_partial. Qed.
+
+(* a copy in which every prior stands for itself has the identifier of the original *)
+Theorem C07_derived_copy_same_identifier : forall (md5 : string -> string) (ps : float -> string) (s n : node) (tag : option string),
+  tuples_ok n = true -> ident md5 ps (fit_obj s (derive [] n) tag) = ident md5 ps (fit_obj s n tag).
+Proof. exact derived_copy_same_identifier. Qed.
+
+(* ... and what SearchOutput recomputes from the files of a fit of the derived model is the identifier of the model
+   composed by hand, which is the folder the fit wrote to *)
+Theorem C07_derived_roundtrip_partial : forall (md5 : string -> string) (ps : float -> string) (s : node) (a : list (Z * node))
+      (n : node) (tag : option string),
+  priors_only a = true -> tuples_ok n = true -> reload_ok s = true -> reload_ok (subst a n) = true ->
+  exists s' m', reload s = Some s' /\ reload (derive a n) = Some m' /\
+                ident md5 ps (fit_obj_output s' m' tag) = ident md5 ps (fit_obj s (subst a n) tag) /\
+                ident md5 ps (fit_obj s (derive a n) tag) = ident md5 ps (fit_obj s (subst a n) tag).
+Proof. exact derived_roundtrip. Qed.
+
+(* outside the guard the full statement fails on the code as it is: a derived TuplePrior lists its priors first *)
+Theorem C07_derived_same_identifier_refuted :
+  exists (ps : float -> string) (s : node) (a : list (Z * node)) (n : node) (tag : option string),
+    priors_only a = true /\ tuples_ok n = false /\
+    tokens ps (fit_obj s (derive a n) tag) <> tokens ps (fit_obj s (subst a n) tag).
+Proof. exact derived_tuple_witness. Qed.
+
 Print Assumptions C07_stable.
+Print Assumptions C07_derived_same_identifier.
+Print Assumptions C07_derived_same_identifier_partial.
+Print Assumptions C07_derived_roundtrip_partial.
 Print Assumptions C07_stable_ids_labels.
 Print Assumptions C07_roundtrip_same_description.
 Print Assumptions C07_rounding_binary64.
